@@ -392,6 +392,53 @@ func ruleC01Closed(p *Program, r *Run) {
 		ok := c == clClosed || row.NeedsParens
 		r.Check(ok, "C01/needsparens", key, p.Pos(row.Pos), fmt.Sprintf("rewrite is %s, needsParens=%v", c, row.NeedsParens), fmt.Sprintf("the rewrite of %s(...) is a %s SQL fragment (it has an operator at nesting depth 0) but needsParens is false: used as an operand it is written bare and regrouped by SQL precedence (e.g. `%s(a) in (...)`)", row.Name, c, row.Name))
 	}
+	// every lookup into the built-in table asks with the same key: the site that decides about parentheses and the
+	// site that writes the rewrite must agree on which functions are built-ins
+	{
+		info := p.Info
+		kfInit := FuncObj(p.PQL, p.MustFunc(p.PQL, "initKnownFunctions"))
+		isTable := func(x ast.Expr) bool {
+			x = ast.Unparen(p.DefExpr(x))
+			if call, ok := x.(*ast.CallExpr); ok {
+				return Callee(info, call) == kfInit
+			}
+			if o := objOf(info, x); o != nil {
+				return objName(o) == "knownFunctions"
+			}
+			return false
+		}
+		keys := map[string][]string{}
+		var first ast.Node
+		for _, fd := range AllFuncs(p.PQL) {
+			ast.Inspect(fd.Body, func(n ast.Node) bool {
+				ix, ok := n.(*ast.IndexExpr)
+				if !ok || !isTable(ix.X) {
+					return true
+				}
+				if as, isAs := p.Parent(ix).(*ast.AssignStmt); isAs {
+					for _, l := range as.Lhs {
+						if l == ast.Expr(ix) {
+							return true // the table being filled
+						}
+					}
+				}
+				if first == nil {
+					first = ix
+				}
+				k := p.normExpr(p.ResolveDeep(ix.Index))
+				keys[k] = append(keys[k], p.Pos(ix.Pos()))
+				return true
+			})
+		}
+		var ks []string
+		for k := range keys {
+			ks = append(ks, fmt.Sprintf("%s at %s", k, strings.Join(keys[k], ", ")))
+		}
+		sort.Strings(ks)
+		if first != nil {
+			r.Check(len(keys) == 1, "C01/needsparens", "pql lookups into the built-in table use one key", p.Pos(first.Pos()), "every lookup asks with "+strings.Join(ks, "; "), "the built-in table is consulted with different keys ("+strings.Join(ks, "; ")+"): a call can be written by a built-in's rewrite while the site that decides about parentheses does not see the built-in (or the other way round)")
+		}
+	}
 	r.Floor("C01/needsparens", 11)
 
 	// report the derived classes as a note
